@@ -36,3 +36,68 @@ def concat_lemmas():
         ("engine.concat.members_right", hy, z3.Implies(z3.And(0 <= q0, q0 < nb, B[q0] == p0),
                                                        z3.And(0 <= q0 + na, q0 + na < na + nb, R[q0 + na] == p0)), {}),
     ]
+
+
+# ------------------------------------------------------------------------------------------ networks as address sets
+class NetDefs:
+    """bit-level definitions of the ipaddress operations used by the verified code (strict IPv4Network values):
+    the list-level VCs use uninterpreted NET_IN / NET_SUPER / NET_SUB0 / NET_SUB1 / NET_SUB constrained by the facts N.*
+    below; here the facts are proved for these definitions, and props/C14 cross-checks the definitions against CPython."""
+
+    @staticmethod
+    def mask(p):
+        from .values import netmask_of
+        return netmask_of(p)
+
+    @staticmethod
+    def wf(n):
+        from .values import Net
+        a, p = Net.addr(n), Net.plen(n)
+        return z3.And(p >= 0, p <= 32, z3.ULE(a, 0xFFFFFFFF), (a & ~NetDefs.mask(p) & 0xFFFFFFFF) == 0)
+
+    @staticmethod
+    def has(a, n):
+        from .values import Net
+        return z3.And(z3.ULE(a, 0xFFFFFFFF), (a & NetDefs.mask(Net.plen(n))) == Net.addr(n))
+
+    @staticmethod
+    def bcast(n):
+        from .values import Net
+        return Net.addr(n) | (~NetDefs.mask(Net.plen(n)) & 0xFFFFFFFF)
+
+    @staticmethod
+    def subnet_of(b, t):
+        """ipaddress: other.network_address <= self.network_address and other.broadcast_address >= self.broadcast_address"""
+        from .values import Net
+        return z3.And(z3.ULE(Net.addr(t), Net.addr(b)), z3.UGE(NetDefs.bcast(t), NetDefs.bcast(b)))
+
+    @staticmethod
+    def supernet(n):
+        """ipaddress: prefixlen 0 -> self; else IPv4Network((int(addr) & (int(netmask) << 1), prefixlen - 1))"""
+        from .values import Net
+        a, p = Net.addr(n), Net.plen(n)
+        return z3.If(p == 0, n, Net.mk_net(a & NetDefs.mask(p - 1), p - 1))
+
+    @staticmethod
+    def subnets(m):
+        """ipaddress: prefixlen 32 -> [self]; else the two halves"""
+        from .values import Net
+        a, p = Net.addr(m), Net.plen(m)
+        bit = NetDefs.mask(p + 1) & ~NetDefs.mask(p) & 0xFFFFFFFF
+        return (z3.If(p < 32, Net.mk_net(a, p + 1), m), z3.If(p < 32, Net.mk_net(a | bit, p + 1), m))
+
+
+def net_lemmas():
+    from .values import Net, BVW
+    D = NetDefs
+    a = z3.BitVec("a", BVW)
+    n, t = z3.Const("n", Net), z3.Const("t", Net)
+    s0, s1 = D.subnets(n)
+    return [
+        ("engine.net.sub", [D.wf(n), D.wf(t), D.subnet_of(n, t), D.has(a, n)], D.has(a, t), {}),
+        ("engine.net.super", [D.wf(n), D.has(a, n)], D.has(a, D.supernet(n)), {}),
+        ("engine.net.super_wf", [D.wf(n)], D.wf(D.supernet(n)), {}),
+        ("engine.net.split", [D.wf(n), Net.plen(n) < 32], D.has(a, n) == z3.Or(D.has(a, s0), D.has(a, s1)), {}),
+        ("engine.net.split_wf", [D.wf(n)], z3.And(D.wf(s0), D.wf(s1)), {}),
+        ("engine.net.split_32", [D.wf(n), Net.plen(n) == 32], z3.And(s0 == n, s1 == n), {}),
+    ]
